@@ -136,7 +136,7 @@ def gen_case(ctx, refs=False, malformed=0.0, depth=None):
 # [], {} — Drafts 3 and 4 accept them) is read as the empty reference. The model said TypeError there
 # until its `kwRef` was repaired (JS.refString); with the flag off, generated schemas spell such
 # references as "" (the same behaviour on the implementation side).
-MODEL_READS_FALSY_REFS = False
+MODEL_READS_FALSY_REFS = True
 
 
 def no_falsy_refs(x):
@@ -2212,7 +2212,11 @@ def c14(ctx):
                 try:
                     impl.DRAFTS["d7"](schema).is_valid(1)
                 except E.RefResolutionError:
-                    res.fail("pointer:validator", "a $ref to an existing location failed to resolve", {"schema": schema})
+                    # the located value is evaluated as a schema: if it contains a `$ref` member of its own
+                    # (documents here have hostile member names, `$ref` among them) THAT reference may be the
+                    # one that does not resolve — not the pointer under test
+                    if '"$ref"' not in json.dumps(want):
+                        res.fail("pointer:validator", "a $ref to an existing location failed to resolve", {"schema": schema})
                 except Exception:       # noqa: BLE001  (the target need not be a schema)
                     pass
 
